@@ -122,7 +122,7 @@ KANI_UNITS = {
     "vk_lat": {
         "mode": "dep", "crate": "contracts/kani/vk_lat", "props": LAT,
         "harness_props": [(r"^alg::", ["C09"]), (r"^coll3::tombstone", ["C05", "C01", "C02", "C03", "C04"]), (r"^coll3::(deep_)?atomize", ["C06"]),
-                          (r"^coll3::(cartesian|deep_keyed)", ["C07"])],
+                          (r"^coll3::(cartesian|keyed|deep_keyed)", ["C07"])],
         "what": "lattices twins (C01-C04 executable contract forms) on monomorphic instantiations; Conflict::merge; Max/Min over char, (); Point",
         "instantiation": "u8 / char / () payloads, nestings of depth <= 2; loop-free => complete for the instantiation",
         "bounded": {r"^coll::": "collection operands of <= 2 elements (cheap representations + harness TinySet/TinyMap receivers), keys/elements over all u8",
@@ -285,8 +285,8 @@ PROPS["C05"] = [("kani", "vk_lat", ["coll3::tombstone_set", "coll3::tombstone_ma
 PROPS["C06"] = [("kani", "vk_lat", ["coll3::atomize_set_union", "coll3::atomize_map_union_any_value_iterator"], ("quick",)),
                 ("kani", "vk_lat", ["coll3::atomize"], ("thorough",))]
 PROPS["C07"] = [("verus", "lat_pair"),
-                ("kani", "vk_lat", ["coll3::cartesian_product_is_product"], ("quick",)),
-                ("kani", "vk_lat", ["coll3::cartesian"], ("thorough",))]
+                ("kani", "vk_lat", ["coll3::cartesian_product_is_product", "coll3::keyed_bimorphism_"], ("quick",)),
+                ("kani", "vk_lat", ["coll3::cartesian", "coll3::keyed_bimorphism_"], ("thorough",))]
 
 PROPS["C17"] = [("verus", "uf_dfir"), ("kani", "vk_uf", ["harness::uf_"], ("quick", "thorough"))]
 
